@@ -65,6 +65,11 @@ def build_note(spec):
 def build_content(content):
     if content is None:
         return None
+    if isinstance(content, dict):
+        # a container that carries a tempo (the sequencer and the MIDI writer honour a `bpm` attribute)
+        nc = NoteContainer([build_note(s) for s in content["notes"]])
+        nc.bpm = content["bpm"]
+        return nc
     return NoteContainer([build_note(s) for s in content])
 
 
